@@ -264,6 +264,18 @@ MUTANTS = [
         "reverts fix dd01f15: FASTA record of a chunk-relative export named after the chunk sequence's own id",
     ),
     (
+        "c10_scan_blocks_cursor_on_instance", "C10", G + "location/location_impl.py",
+        "        if self.strand == Strand.PLUS:\n            yield from self.blocks\n        if self.strand == Strand.MINUS:\n            yield from reversed(self.blocks)\n",
+        "        blocks = self.blocks if self.strand == Strand.PLUS else list(reversed(self.blocks))\n        key = hash(self)\n        _SCAN_POS[key] = 0\n        while _SCAN_POS[key] < len(blocks):\n            yield blocks[_SCAN_POS[key]]\n            _SCAN_POS[key] += 1\n",
+        "scan_blocks keeps its position in a module-level table keyed by the location's hash: a second scan started while the first is half consumed makes the first stop early (each scan alone is fine)",
+    ),
+    (
+        "c10_gene_iter_children_pops_worklist", "C10", G + "gene/gene.py",
+        "    def iter_children(self) -> Iterable[TranscriptInterval]:\n        yield from self.transcripts\n",
+        "    def iter_children(self) -> Iterable[TranscriptInterval]:\n        self._pending = list(self.transcripts)\n        while self._pending:\n            yield self._pending.pop(0)\n",
+        "GeneInterval.iter_children drains a work list kept on the instance: two half-consumed iterations steal from each other",
+    ),
+    (
         "c10_liftover_memo_keyed_by_id", "C10", G + "location/location.py",
         "        try:\n            self.first_ancestor_of_type(sequence_type)\n        except NoSuchAncestorException:\n            raise NoSuchAncestorException(\"Location has no ancestor of type {}\".format(sequence_type))\n        if self.parent_type == sequence_type:\n            return self\n        lifted_to_grandparent = self.parent.lift_child_location_to_parent()\n        return lifted_to_grandparent.lift_over_to_first_ancestor_of_type(sequence_type)\n",
         "        key = (id(self), str(sequence_type))\n        if key in _LIFT_MEMO:\n            return _LIFT_MEMO[key]\n        try:\n            self.first_ancestor_of_type(sequence_type)\n        except NoSuchAncestorException:\n            raise NoSuchAncestorException(\"Location has no ancestor of type {}\".format(sequence_type))\n        if self.parent_type == sequence_type:\n            return self\n        lifted_to_grandparent = self.parent.lift_child_location_to_parent()\n        res = lifted_to_grandparent.lift_over_to_first_ancestor_of_type(sequence_type)\n        if len(_LIFT_MEMO) < 4096:\n            _LIFT_MEMO[key] = res\n        return res\n",
@@ -273,6 +285,7 @@ MUTANTS = [
 
 # helper text appended for the mutant above (kept separate to keep the table readable)
 EXTRA = {
+    "c10_scan_blocks_cursor_on_instance": (G + "location/location_impl.py", "class CompoundInterval(", "_SCAN_POS = {}\n\n\nclass CompoundInterval("),
     "c11_parse_chroms_shared_between_parsers": (G + "io/gff3/parser.py", "def default_parse_func(", "_PENDING = []\n\n\ndef default_parse_func("),
     "c10_liftover_memo_keyed_by_id": (G + "location/location.py", "class Location(AbstractLocation, ABC):\n", "_LIFT_MEMO = {}\n\n\nclass Location(AbstractLocation, ABC):\n"),
 }
@@ -281,7 +294,7 @@ EXTRA = {
 # not in the table: the revert of fix b09015f (CompoundInterval.end) - its history-dependent symptom (reverse() twice on a
 # nested-block, non-plus-strand location) shows in about 1 of 3 000 generated histories even after nested blocks and echo
 # steps were added to the generator; it is thorough-tier material (found there: seed 1202, run 7395 of 36 000).
-RUNS = {"c10_single_interval_sequence_memo_ignores_strand": 2500}
+RUNS = {"c10_single_interval_sequence_memo_ignores_strand": 2500, "c10_gene_iter_children_pops_worklist": 2500}
 
 
 # Behaviour-preserving refactors: the checks must stay SILENT on these (``./vcheck selftest mutants --benign``).
